@@ -141,11 +141,10 @@ where
 
         self.container.pop().expect("must be non-empty");
 
-        // We did some work if we get here; check if we reached
-        // an empty state.
-        if self.is_empty() {
-            self.clear();
-        }
+        // We did some work if we get here; the consumed prefix may
+        // now exceed half the (shorter) container, or we may have
+        // reached an empty state.
+        self.maybe_slide();
 
         self.check_rep();
         Some(ret)
